@@ -3,6 +3,8 @@ CONSTANTS Cap = 3
   Flush = 100
   MaxIndex = 100000
   MaxOps = 0
+  MaxFails = 3
+  Bursts = {}
   ResetTargets = {0}
 CONSTRAINT HW
 POSTCONDITION AllConsumed
